@@ -11,6 +11,17 @@ git apply $D || { echo "PATCH DOES NOT APPLY"; exit 2; }
 rm -rf $WT/.nbc
 echo "== demo on mutant"; $RUN MUTANTS/demo_$V.py < /dev/null > /tmp/ev_$P$V.mutant.log 2>&1; echo "exit=$?"; tail -3 /tmp/ev_$P$V.mutant.log | cut -c1-300
 git checkout -- . ; rm -rf $WT/.nbc
+if [ "$EVAL_IN_WT" = "1" ]; then
+  # run our check(s) against the scratch worktree itself (VERIF_REPO / PYTHONPATH) and leave /repo alone
+  echo "== our check(s) on the worktree with the mutant"
+  git apply $D || exit 2
+  for C in $P "$@"; do
+    (cd /verif && VERIF_REPO=$WT PYTHONPATH=$WT ./check $C > /tmp/ev_$P$V.check_$C.log 2>&1; echo "check $C exit=$?"; grep -c "^VIOLATION" /tmp/ev_$P$V.check_$C.log; grep -A1 "^VIOLATION" /tmp/ev_$P$V.check_$C.log | head -4 | cut -c1-400; tail -1 /tmp/ev_$P$V.check_$C.log | cut -c1-200)
+  done
+  cd $WT && git checkout -- . ; rm -rf $WT/.nbc
+  echo "== worktree restored"
+  exit 0
+fi
 echo "== our check(s) on /repo with the mutant"
 cd /repo && git status --short | grep -v '^??' && { echo "/repo dirty"; exit 2; }
 git -C /repo apply $D || { echo "PATCH DOES NOT APPLY TO /repo"; exit 2; }
